@@ -1076,7 +1076,7 @@ Definition run_clip (l : list Z) : list Z :=
   | [] => [-2]
   end.
 
-Definition run_case (l : list Z) : list Z :=
+Definition run_case_attr (l : list Z) : list Z :=
   match l with
   | 1 :: r => run_markup r
   | 2 :: r => run_layout r
